@@ -133,4 +133,7 @@ pub struct E2History {
     /// ... and the scheduler step at which each of them did
     #[serde(default)]
     pub finished_steps: Vec<u32>,
+    /// a timed Condvar wait was used (shuttle never lets those time out)
+    #[serde(default)]
+    pub timed_wait_used: bool,
 }
